@@ -383,6 +383,7 @@ func c06Run(w *W) {
 	for _, src := range []string{
 		"cat <<E <<F | b\nx\nE\ny\nF\n", "a $(b <<E\nx\nE\n) c\n", "if a; then b <<E\nx\nE\nfi\n", "a | | $( b ; )\nc\n", "{ a; } | | b\nc\n",
 		"a `b $(c) d` e\n", "a $(b `c`) | | d\n", "for x in a b; do c; done\n", "a <<E &&\nx\nE\nb\n", "a $( 'q\n",
+		"cat <<A <<B\nx\nA", "cat <<A <<B\nx\nA\n", "cat <<A; cat <<B\nA", "a <<A | b <<B\nA\ny",
 		"cat 3<<A\nfoo\n", "a <<E 3<<F\nx\nE\ny\n", "if a 3<<A\nthen b\n", "b $(a 3<<A\nb\n", "a 3<<E 4<<F\nx\nE\ny\nF\n",
 	} {
 		if !w.Mine() || w.TimeUp() {
@@ -760,7 +761,7 @@ func init() {
 		id:    "C06",
 		level: "model_checking",
 		rule: "stateless DFS over ALL interleavings of the hooked operations (token hand-off incl. both outcomes of an ambiguous select, cancel, here-document queue, nested lexer join, error slots, return) for every ParseCommands input of ≤ 3 (quick) / 4 (thorough) pieces over {a | ; ( ) $( $(a) ` ' ${ <<E newline #c if 3<<U(unterminated numbered here-document)}, " +
-			"15 longer inputs with preemption bound ≤ 2, the generator's lists of leaf commands and default-filled compound commands with each single-symbol deletion (preemption bound ≤ 1), every input of ≤ 2 (thorough 3) pieces additionally with the reader failing from / once at every rune index (all schedules: the call must return), and every Eval input of ≤ 4 / 5 tokens over {1 08 x y = + / 0 ++ ( ) @} plus 23 longer ones (a fault reduced while the lexer is about to reject a later character); non-trivial = inputs with more than one schedule; plus a supplementary free-running pass (GOMAXPROCS 1, 2, 16) whose results must be among the explored ones, and the same bodies under the race detector",
+			"19 longer inputs with preemption bound ≤ 2, the generator's lists of leaf commands and default-filled compound commands with each single-symbol deletion (preemption bound ≤ 1), every input of ≤ 2 (thorough 3) pieces additionally with the reader failing from / once at every rune index (all schedules: the call must return), and every Eval input of ≤ 4 / 5 tokens over {1 08 x y = + / 0 ++ ( ) @} plus 23 longer ones (a fault reduced while the lexer is about to reject a later character); non-trivial = inputs with more than one schedule; plus a supplementary free-running pass (GOMAXPROCS 1, 2, 16) whose results must be among the explored ones, and the same bodies under the race detector",
 		assume: []string{"the controller owns every synchronisation operation between the goroutines (hooks, build tag verif); mutexes are never contended because no point lies inside a critical section",
 			"unhooked unsynchronised accesses and memory-model effects are only looked at by the supplementary -race pass; silence there is not evidence of absence",
 			"executions are capped per input (quick 20 000, thorough 200 000); a capped input makes the run non-exhaustive"},
